@@ -265,12 +265,70 @@ def lc_selection(chk):
     src = chk.src
     init = src.func(CAT, CLS + '__init__')
     calls = [n for n in walk_no_nested(init) if isinstance(n, ast.Call) and isinstance(n.func, ast.Attribute) and n.func.attr == '_setup_load_subsamples']
-    ok, got = False, None
-    if len(calls) == 1:
-        kw = [k.value for k in calls[0].keywords if k.arg == 'passthrough'] or list(calls[0].args[1:2])
-        got = unparse(kw[0]) if kw else None
-        ok = got is not None and got.replace('(', '').replace(')', '') in ('passthrough and not halo_lc', 'not halo_lc and passthrough', 'False if halo_lc else passthrough',
-                                                                        'passthrough if not halo_lc else False', 'passthrough and not self.halo_lc')
+    # the constructor is walked for a light cone (halo_lc = True) with passthrough = True: tests on halo_lc are decided, everything else is
+    # followed on both sides; the value handed over as `passthrough=` at every call that is reached must be false
+    UNK = object()
+
+    def ev(e, env):
+        if isinstance(e, ast.Constant):
+            return e.value
+        if isinstance(e, ast.Name):
+            return env.get(e.id, UNK)
+        if isinstance(e, ast.UnaryOp) and isinstance(e.op, ast.Not):
+            v = ev(e.operand, env)
+            return UNK if v is UNK else (not v)
+        if isinstance(e, ast.BoolOp):
+            vals = [ev(v, env) for v in e.values]
+            if isinstance(e.op, ast.And):
+                if any(v is not UNK and not v for v in vals):
+                    return False
+                return UNK if any(v is UNK for v in vals) else vals[-1]
+            if any(v is not UNK and v for v in vals):
+                return True
+            return UNK if any(v is UNK for v in vals) else vals[-1]
+        if isinstance(e, ast.Compare) and len(e.ops) == 1 and isinstance(e.ops[0], (ast.Is, ast.IsNot, ast.Eq, ast.NotEq)):
+            a, b = ev(e.left, env), ev(e.comparators[0], env)
+            if a is UNK or b is UNK:
+                return UNK
+            same = (a is b) if isinstance(e.ops[0], (ast.Is, ast.IsNot)) else (a == b)
+            return same if isinstance(e.ops[0], (ast.Is, ast.Eq)) else not same
+        if isinstance(e, ast.IfExp):
+            t = ev(e.test, env)
+            if t is UNK:
+                a, b = ev(e.body, env), ev(e.orelse, env)
+                return a if a is not UNK and a == b else UNK
+            return ev(e.body if t else e.orelse, env)
+        return UNK
+    reached = []        # (call node, value of the passthrough argument)
+
+    def walk(stmts, env):
+        for st in stmts:
+            for c_ in [n for n in ast.walk(st) if n in calls] if not isinstance(st, (ast.If, ast.For, ast.While, ast.With, ast.Try)) else []:
+                kw = [k.value for k in c_.keywords if k.arg == 'passthrough'] or list(c_.args[1:2])
+                reached.append((c_, ev(kw[0], env) if kw else False))
+            if isinstance(st, ast.Assign) and len(st.targets) == 1 and isinstance(st.targets[0], ast.Name):
+                env[st.targets[0].id] = ev(st.value, env)
+            elif isinstance(st, ast.If):
+                t = ev(st.test, env)
+                if t is UNK:
+                    ea, eb = dict(env), dict(env)
+                    walk(st.body, ea)
+                    walk(st.orelse, eb)
+                    for k_ in set(ea) | set(eb):
+                        va, vb = ea.get(k_, UNK), eb.get(k_, UNK)
+                        env[k_] = va if (va is not UNK and vb is not UNK and va == vb) else UNK
+                else:
+                    walk(st.body if t else st.orelse, env)
+            elif isinstance(st, (ast.For, ast.While, ast.With, ast.Try)):
+                walk(getattr(st, 'body', []), env)
+    walk(init.body, {'halo_lc': True, 'passthrough': True})
+    got = None
+    ok = bool(reached)
+    for c_, v_ in reached:
+        if v_ is UNK or v_:
+            ok = False
+            kw = [k.value for k in c_.keywords if k.arg == 'passthrough'] or list(c_.args[1:2])
+            got = unparse(kw[0]) if kw else None
     lc = src.func(CAT, CLS + '_load_halo_lc_subsamples')
     maps = any(isinstance(n, ast.Dict) and {'rvint', 'packedpid'} & {getattr(k_, 'value', None) for k_ in n.keys} for n in ast.walk(lc))
     chk.check(ok or maps, 'C01-R9', CAT, CLS + '__init__', 'light cone: the subsample selection does not use the passthrough expansion to raw column names', f'passthrough={got}',
